@@ -23,6 +23,10 @@ class Result:
         self.known = []               # occurrences of listed known findings (id, what)
         self.prop = None
 
+    def is_known(self, f):
+        import kf
+        return bool(self.prop) and kf.match_known(kf.load_known_findings(), self.prop, f) is not None
+
     def add(self, f):
         """record a finding unless it is an instance of a listed known finding"""
         import kf
@@ -227,6 +231,11 @@ def run_campaign(res, prop, plan, n_hist, seed, scope, observers=(), versions=(6
         for v in s.violations:
             if len(res.findings) >= max_findings:
                 break
+            f = {'kind': 'monitor', 'property': v.prop, 'clause': v.clause, 'detail': v.detail, 'version': version, 'seed': hseed,
+                 'events': [corr.ev_json(e) for e in events[:v.index + 1]]}
+            if res.is_known(f):
+                res.add(f)          # an occurrence of a listed finding: noted, and the next violation of the session is looked at
+                continue
             small = shrink_violation(events, version, hseed, v.prop, v.clause, observers)
             res.add({'kind': 'monitor', 'property': v.prop, 'clause': v.clause, 'detail': v.detail,
                                  'version': version, 'seed': hseed, 'events': [corr.ev_json(e) for e in small]})
